@@ -395,6 +395,9 @@ def run(ctx):
     # applied after) only because it holds the journal lock across the tree ingestion: the obligation of C14, part of "point reads and scans agree"
     from . import c14
     c14.check_ingestion(ctx)
+    # every tree of the database (new, recovered, meta) must be wired to the same two counters in the same roles (shared obligations, see wiring.py)
+    from . import wiring
+    wiring.check_all(ctx)
     for o in ctx.obligations:
         ctx.samples.append(o.as_dict())
     return ctx.finish()
